@@ -68,6 +68,12 @@ def gen_case(rng, max_n=40):
             lo = A.min(axis=0); hi = A.max(axis=0)
         if rng.random() < 0.25:
             j = rng.randrange(M); hi[j] = lo[j]                      # ideal == nadir in one dimension
+        if norm in ("ideal-nadir", "pf+ideal") and A.min() >= 0 and rng.random() < 0.3:
+            lo = np.zeros(M)                                         # the ideal point is the origin, given explicitly
+        if norm in ("ideal-nadir", "pf+nadir") and rng.random() < 0.15:
+            A = A - (A.max(axis=0) + rng.choice([0.0, 0.5])); F = A.tolist(); case["F"] = F       # negative objectives: nadir at / above the origin
+            lo = A.min(axis=0) - 0.5; hi = np.zeros(M)
+        hi = np.maximum(hi, lo)                                      # a nadir below the ideal is not a legitimate setting (pymoo rejects it)
         case["ideal"] = lo.tolist(); case["nadir"] = hi.tolist()
         if norm in ("pf", "pf+ideal", "pf+nadir"):
             K = rng.randint(2, 6)
